@@ -4,6 +4,8 @@ From Bifrost Require Import Lib.Base Link.Model Link.Maps.
 Section Proofs.
   Variable U : nat -> link.
   Variable lb : bool.   (* does HandleLinkLost broadcast *)
+  Variable rdy : bool.  (* is the transport already constructed in the initial state *)
+  Definition initr (me : Z) : state := mkState me [] [] [] [] rdy.
   Notation uuid_of := (uuid_of U).
   Notation remote_of := (remote_of U).
   Notation local_of := (local_of U).
@@ -13,7 +15,7 @@ Section Proofs.
   Notation do_lost := (do_lost U).
   Notation step := (step_gen U lb).
   Notation run_from := (run_gen U lb).
-  Notation run me h := (run_gen U lb (init me) h).
+  Notation run me h := (run_gen U lb (initr me) h).
   Notation live := (live U).
   Notation live_step := (live_step U).
 
@@ -62,7 +64,7 @@ Section Proofs.
     inv_noself : forall q, lget s (uuid_of q) = Some q -> remote_of q <> st_peer s
   }.
 
-  Lemma inv_init me : Inv (init me).
+  Lemma inv_init me : Inv (initr me).
   Proof.
     constructor; unfold lget, peer_links; cbn.
     - constructor.
@@ -143,9 +145,9 @@ Section Proofs.
     Inv s -> do_lost s p = if option_eqb Nat.eqb (lget s (uuid_of p)) (Some p) then flush s p else s.
   Proof.
     intros I. unfold do_lost.
-    assert (Hpre : Model.flush U (mkState (st_peer s) (adel (uuid_of p) (st_links s)) (st_by_peer s) (st_closed s) (st_dirs s)) p
+    assert (Hpre : Model.flush U (mkState (st_peer s) (adel (uuid_of p) (st_links s)) (st_by_peer s) (st_closed s) (st_dirs s) (st_ready s)) p
                    = flush s p).
-    { unfold Model.flush. cbn [st_peer st_links st_by_peer st_closed st_dirs]. rewrite adel_idem.
+    { unfold Model.flush. cbn [st_peer st_links st_by_peer st_closed st_dirs st_ready]. rewrite adel_idem.
       unfold peer_links. cbn [st_by_peer]. reflexivity. }
     assert (Hslow : lget s (uuid_of p) <> Some p -> find_val p (st_links s) = None).
     { intros Hn. destruct (find_val p (st_links s)) as [k|] eqn:E; [|reflexivity].
@@ -160,7 +162,7 @@ Section Proofs.
 
   (* the table part of a step; directives are bookkeeping on top of it *)
   Definition core (s : state) (a : action) : state :=
-    match a with Est p => do_est s p | Lost p => do_lost s p | Resolve _ _ => s end.
+    match a with Est p => do_est s p | Lost p => do_lost s p | Resolve _ _ => s | Ready => set_ready s end.
 
   Lemma set_dirs_eta s : set_dirs s (st_dirs s) = s.
   Proof. destruct s; reflexivity. Qed.
@@ -174,7 +176,7 @@ Section Proofs.
 
   Lemma step_core s a : exists d, fst (step s a) = set_dirs (core s a) d.
   Proof.
-    destruct a as [p|p|src dst]; cbn [step_gen core].
+    destruct a as [p|p|src dst|]; cbn [step_gen core].
     - destruct (est_stores U s p); cbn [fst].
       + destruct (dir_start_core (do_est s p) (Model.local_of U p) (Model.remote_of U p)) as [d ->].
         eexists. reflexivity.
@@ -187,11 +189,12 @@ Section Proofs.
       destruct (Z.eqb src 0).
       + destruct (dir_start_core (set_dirs s d) (st_peer s) dst) as [d' ->]. exists d'. reflexivity.
       + exists d. reflexivity.
+    - cbn [fst]. eexists. reflexivity.
   Qed.
 
   Lemma core_peer s a : st_peer (core s a) = st_peer s.
   Proof.
-    destruct a as [p|p|src dst]; cbn [core]; [| |reflexivity].
+    destruct a as [p|p|src dst|]; cbn [core]; [| |reflexivity|reflexivity].
     - unfold Model.do_est. destruct (Z.eqb _ _); [reflexivity|].
       destruct (aget _ _) as [q|]; [destruct (Nat.eqb q p)|]; reflexivity.
     - unfold Model.do_lost.
@@ -210,7 +213,7 @@ Section Proofs.
 
   Lemma inv_core s a : Inv s -> Inv (core s a).
   Proof.
-    intros I. destruct a as [p|p|src dst]; cbn [core]; [| |exact I].
+    intros I. destruct a as [p|p|src dst|]; cbn [core]; [| |exact I|destruct I; constructor; assumption].
     - unfold Model.do_est. destruct (Z.eqb_spec (remote_of p) (st_peer s)) as [Hs|Hs].
       + apply inv_close_only, I.
       + fold (lget s (uuid_of p)). destruct (lget s (uuid_of p)) as [q|] eqn:Eq.
@@ -254,7 +257,7 @@ Section Proofs.
   Lemma rel_core s L a :
     Inv s -> Rel s L -> Rel (core s a) (live_step (st_peer s) L a).
   Proof.
-    intros I R. destruct a as [p|p|src dst]; cbn [core Model.live_step]; [| |exact R].
+    intros I R. destruct a as [p|p|src dst|]; cbn [core Model.live_step]; [| |exact R|exact R].
     - unfold Model.do_est. destruct (Z.eqb_spec (remote_of p) (st_peer s)) as [Hs|Hs]; [exact R|].
       fold (lget s (uuid_of p)).
       assert (Hins : forall s1, (forall k, lget s1 k = if Z.eqb k (uuid_of p) then None else lget s k) ->
@@ -308,7 +311,7 @@ Section Proofs.
 
   Lemma rel_run me h : Rel (run me h) (live me h).
   Proof.
-    apply (rel_run_from me h (init me) []); [apply inv_init| |reflexivity].
+    apply (rel_run_from me h (initr me) []); [apply inv_init| |reflexivity].
     intros q. unfold lget; cbn. split; [tauto|discriminate].
   Qed.
 
@@ -352,7 +355,7 @@ Section Proofs.
   Qed.
 
   Lemma run_peer me h : st_peer (run me h) = me.
-  Proof. apply (run_from_peer h (init me)). Qed.
+  Proof. apply (run_from_peer h (initr me)). Qed.
 
   (* ---- properties of the live specification ---- *)
   Lemma live_lost_absent me : forall h' L q,
@@ -360,7 +363,7 @@ Section Proofs.
   Proof.
     induction h' as [|a h' IH]; intros L q HL Hh; [exact HL|].
     cbn [fold_left]. apply IH; [|intros H; apply Hh; right; exact H].
-    destruct a as [p|p|src dst]; cbn [Model.live_step]; [| |exact HL].
+    destruct a as [p|p|src dst|]; cbn [Model.live_step]; [| |exact HL|exact HL].
     - destruct (Z.eqb _ me); [exact HL|].
       destruct (existsb _ L); [exact HL|].
       cbn [In]. rewrite filter_In. intros [->|[H _]]; [apply Hh; left; reflexivity|contradiction].
@@ -460,7 +463,7 @@ Section Proofs.
   Lemma closed_mono_step s a q : In q (st_closed s) -> In q (st_closed (fst (step s a))).
   Proof.
     intros H. destruct (step_core s a) as [d ->]. cbn [set_dirs st_closed].
-    destruct a as [p|p|src dst]; cbn [core]; [| |exact H].
+    destruct a as [p|p|src dst|]; cbn [core]; [| |exact H|exact H].
     - unfold Model.do_est. destruct (Z.eqb _ _); [right; exact H|].
       destruct (aget _ _) as [x|]; [destruct (Nat.eqb x p)|]; cbn; auto.
     - unfold Model.do_lost.
@@ -476,7 +479,7 @@ Section Proofs.
     intros I [H|H]; [|right; apply closed_mono_step, H].
     destruct (step_core s a) as [d ->].
     change (Tracked (core s a) q).
-    destruct a as [p|p|src dst]; cbn [core]; [| |left; exact H].
+    destruct a as [p|p|src dst|]; cbn [core]; [| |left; exact H|left; exact H].
     - unfold Model.do_est. destruct (Z.eqb _ _); [left; exact H|].
       fold (lget s (uuid_of p)). destruct (lget s (uuid_of p)) as [x|] eqn:Ex.
       + destruct (Nat.eqb_spec x p) as [->|Hn]; [left; exact H|].
@@ -543,6 +546,7 @@ Section Proofs.
     dst <> 0 /\ (src = 0 \/ src = me) /\ remote_of q = dst /\ remote_of q <> me /\ In q (live me h).
   Proof.
     unfold resolve. rewrite run_peer.
+    destruct (st_ready _); cbn [negb]; [|intros []].
     destruct (Z.eqb_spec dst 0); [intros []|].
     destruct (Z.eqb_spec src 0) as [->|Hs]; cbn [negb andb].
     - intros H. pose proof H as H'. apply reported_is_live in H as [H1 H2].
@@ -560,7 +564,7 @@ Section Proofs.
   Proof.
     induction h as [|a h IH]; intros L q H; [left; exact H|].
     cbn [fold_left] in H. apply IH in H as [H|H]; [|right; right; exact H].
-    destruct a as [p|p|src dst]; cbn [Model.live_step] in H; [| |left; exact H].
+    destruct a as [p|p|src dst|]; cbn [Model.live_step] in H; [| |left; exact H|left; exact H].
     - destruct (Z.eqb _ me); [left; exact H|].
       destruct (existsb _ L); [left; exact H|].
       cbn [In] in H. rewrite filter_In in H. destruct H as [->|[H _]]; [right; left; reflexivity|left; exact H].
@@ -612,6 +616,7 @@ Section Proofs.
     /\ lget s (uuid_of q) = Some q.
   Proof.
     intros I. unfold resolve.
+    destruct (st_ready s); cbn [negb]; [|intros []].
     destruct (Z.eqb_spec b 0); [intros []|].
     assert (Hpl : In q (peer_links b s) ->
                   remote_of q = b /\ remote_of q <> st_peer s /\ lget s (uuid_of q) = Some q).
@@ -648,7 +653,7 @@ Section Proofs.
 
   Lemma core_dirs s a : st_dirs (core s a) = st_dirs s.
   Proof.
-    destruct a as [p|p|? ?]; cbn [core]; [| |reflexivity].
+    destruct a as [p|p|? ?|]; cbn [core]; [| |reflexivity|reflexivity].
     - unfold Model.do_est. destruct (Z.eqb _ _); [reflexivity|].
       destruct (aget _ _) as [q|]; [destruct (Nat.eqb q p)|]; reflexivity.
     - unfold Model.do_lost.
@@ -693,7 +698,7 @@ Section Proofs.
     { intros H. apply Hmono. eapply resolve_ok; [exact I|exact Hp|apply lget_established|exact H]. }
     rewrite run_snoc in Hin. rewrite run_snoc in Hnew.
     set (s := run me h) in *.
-    destruct x as [p|p|src dst]; cbn [step_gen] in Hin, Hnew.
+    destruct x as [p|p|src dst|]; cbn [step_gen] in Hin, Hnew.
     - destruct (est_stores U s p); cbn [fst] in Hin, Hnew.
       + pose proof (refresh_dirs _ _ _ _ Hin) as ->.
         destruct (dir_start_tables (do_est s p) (Model.local_of U p) (Model.remote_of U p)) as [d Ed].
@@ -721,6 +726,34 @@ Section Proofs.
       destruct Hfin as [Hold|[a'' [b'' E]]].
       + apply Hmono. eapply IH; eassumption.
       + injection E as Ea Eb Ev. rewrite Ev in Hq. rewrite <- Ea, <- Eb in Hq. apply Hcur, Hq.
+    - cbn [fst] in Hin, Hnew. pose proof (refresh_dirs _ _ _ _ Hin) as ->.
+      apply (Hnew _ eq_refl []). exact Hq.
+  Qed.
+
+  (* the transport, once constructed, stays constructed *)
+  Lemma step_ready s a : st_ready s = true -> st_ready (fst (step s a)) = true.
+  Proof.
+    intros H. destruct (step_core s a) as [d ->]. cbn [set_dirs st_ready].
+    destruct a as [p|p|? ?|]; cbn [core]; [| |exact H|reflexivity].
+    - unfold Model.do_est. destruct (Z.eqb _ _); [exact H|].
+      destruct (aget _ _) as [q|]; [destruct (Nat.eqb q p)|]; exact H.
+    - unfold Model.do_lost.
+      destruct (aget _ _) as [q|]; [destruct (Nat.eqb q p)|]; try exact H;
+        destruct (find_val _ _); exact H.
+  Qed.
+
+  Lemma run_from_ready h : forall s, st_ready s = true -> st_ready (run_from s h) = true.
+  Proof.
+    induction h as [|a h IH]; intros s H; [exact H|].
+    cbn [Model.run_gen fold_left]. apply (IH (fst (step s a))), step_ready, H.
+  Qed.
+
+  Lemma run_ready me h : rdy = true \/ In Ready h -> st_ready (run me h) = true.
+  Proof.
+    intros [H|H].
+    - apply run_from_ready. exact H.
+    - apply in_split in H as [h1 [h2 ->]]. rewrite run_app. cbn [Model.run_gen fold_left].
+      apply (run_from_ready h2 (fst (step (run me h1) Ready))). reflexivity.
   Qed.
 
   (* what a request yields when it is made after history h *)
@@ -746,8 +779,9 @@ End Proofs.
 (* ---- when HandleLinkLost broadcasts, the directives are always fresh ---- *)
 Section Fresh.
   Variable U : nat -> link.
+  Variable rdy : bool.
   Notation step := (step_gen U true).
-  Notation run me h := (run_gen U true (init me) h).
+  Notation run me h := (run_gen U true (initr rdy me) h).
 
   Definition Fresh (s : state) : Prop :=
     forall a b v, In (a, b, v) (st_dirs s) -> v = resolve s a b.
@@ -765,7 +799,7 @@ Section Fresh.
 
   Lemma fresh_step s a : Inv U s -> Fresh s -> Fresh (fst (step s a)).
   Proof.
-    intros I F. destruct a as [p|p|src dst]; cbn [step_gen].
+    intros I F. destruct a as [p|p|src dst|]; cbn [step_gen].
     - destruct (est_stores U s p) eqn:E; cbn [fst]; [apply fresh_refresh|].
       (* nothing stored: self-dial or duplicate, linksByPeerID unchanged *)
       unfold est_stores in E. unfold Model.do_est.
@@ -783,12 +817,13 @@ Section Fresh.
       rewrite E1. exact F.
     - destruct (Z.eqb dst 0); cbn [fst]; [exact F|].
       destruct (Z.eqb src 0); [apply fresh_dir_start|]; apply fresh_dir_start, F.
+    - cbn [fst]. apply fresh_refresh.
   Qed.
 
   Lemma fresh_run me h : Fresh (run me h).
   Proof.
     induction h as [|x h IH] using rev_ind; [intros a b v []|].
-    rewrite (run_snoc U true). apply fresh_step; [apply (inv_run U true)|exact IH].
+    rewrite (run_snoc U true rdy). apply fresh_step; [apply (inv_run U true rdy)|exact IH].
   Qed.
 
   Lemma dir_find_start s a b :
@@ -813,13 +848,15 @@ Section Fresh.
   (* with a broadcast after every table change, a request yields exactly the
      live links between the two peers *)
   Theorem yielded_is_live_when_lost_broadcasts me h src dst q :
-    In q (yielded U true me h src dst) <->
+    rdy = true \/ In Ready h ->
+    In q (yielded U true rdy me h src dst) <->
     dst <> 0 /\ (src = 0 \/ src = me) /\ In q (live U me h) /\ Model.remote_of U q = dst.
   Proof.
+    intros Hready. apply (run_ready U true rdy me h) in Hready.
     unfold yielded. cbn [step_gen].
-    pose proof (run_peer U true me h) as Hp.
+    pose proof (run_peer U true rdy me h) as Hp.
     destruct (Z.eqb_spec dst 0) as [->|Hd]; cbn [snd]; [split; [intros []|tauto]|].
-    set (s := run_gen U true (init me) h) in *.
+    set (s := run_gen U true (initr rdy me) h) in *.
     set (s1 := dir_start s src dst).
     set (s2 := if Z.eqb src 0 then dir_start s1 (st_peer s) dst else s1).
     assert (F2 : Fresh s2).
@@ -834,11 +871,11 @@ Section Fresh.
     destruct E2 as [v Ev]. rewrite Ev.
     pose proof (F2 _ _ _ (dir_find_in _ _ _ _ Ev)) as ->.
     destruct T2 as [d T2]. rewrite T2, resolve_set_dirs. clear F2 Ev T2. subst s2 s1 s.
-    unfold resolve. destruct (Z.eqb_spec dst 0); [contradiction|]. rewrite Hp.
+    unfold resolve. rewrite Hready. cbn [negb]. destruct (Z.eqb_spec dst 0); [contradiction|]. rewrite Hp.
     destruct (Z.eqb_spec src 0) as [->|Hs]; cbn [negb andb].
-    - rewrite (reported_is_live U true me h dst q). tauto.
+    - rewrite (reported_is_live U true rdy me h dst q). tauto.
     - destruct (Z.eqb_spec src me) as [->|]; cbn [negb].
-      + rewrite (reported_is_live U true me h dst q). tauto.
+      + rewrite (reported_is_live U true rdy me h dst q). tauto.
       + split; [intros []|]. intros (_ & [?|?] & _); contradiction.
   Qed.
 End Fresh.
@@ -848,8 +885,46 @@ Definition stale_univ : nat -> link := fun _ => mkLink 100 1 1 2.
 Definition stale_history : list action := [Resolve 1 2; Est 0%nat; Lost 0%nat].
 
 Theorem lost_link_still_yielded_without_broadcast :
-  In 0%nat (yielded stale_univ false 1 stale_history 1 2) /\
+  In 0%nat (yielded stale_univ false true 1 stale_history 1 2) /\
   live stale_univ 1 stale_history = [] /\
   get_peer_links stale_univ (run_gen stale_univ false (init 1) stale_history) 2 = [] /\
   In 0%nat (st_closed (run_gen stale_univ false (init 1) stale_history)).
 Proof. vm_compute. repeat split; auto. Qed.
+
+(* ---- start-up ordering: when a request arrives does not matter ---- *)
+Definition is_request (a : action) : bool := match a with Resolve _ _ => true | _ => false end.
+
+Lemma live_requests_prefix U me pre h :
+  forallb is_request pre = true -> live U me (pre ++ Ready :: h) = live U me h.
+Proof.
+  intros Hp. unfold live. rewrite fold_left_app. cbn [fold_left live_step].
+  replace (fold_left (live_step U me) pre []) with (@nil nat); [reflexivity|].
+  induction pre as [|a pre IH]; [reflexivity|]. cbn [forallb] in Hp. apply andb_true_iff in Hp as [Ha Hp].
+  destruct a; try discriminate. cbn [fold_left live_step]. apply IH, Hp.
+Qed.
+
+(* requests made while the transport is not yet constructed (any sources and
+   targets, any number) followed by the construction and then any history h
+   yield exactly what the same request yields when made after h on a
+   controller whose transport was constructed first: in particular a request
+   with a foreign source yields nothing, whenever it arrived *)
+Theorem arrival_time_irrelevant U me pre h src dst q :
+  forallb is_request pre = true ->
+  (In q (yielded U true false me (pre ++ Ready :: h) src dst) <->
+   In q (yielded U true true me h src dst)).
+Proof.
+  intros Hp.
+  rewrite (yielded_is_live_when_lost_broadcasts U false me (pre ++ Ready :: h) src dst q)
+    by (right; apply in_or_app; right; left; reflexivity).
+  rewrite (yielded_is_live_when_lost_broadcasts U true me h src dst q) by (left; reflexivity).
+  rewrite (live_requests_prefix U me pre h Hp). reflexivity.
+Qed.
+
+(* and the directive that was started before the construction itself holds
+   exactly those values afterwards (it is re-evaluated, not trusted) *)
+Theorem early_directive_values U me pre h a b v q :
+  In (a, b, v) (st_dirs (run_gen U true (initr false me) (pre ++ Ready :: h))) -> In q v ->
+  (a = 0 \/ a = me) /\ b <> 0 /\ remote_of U q = b /\ remote_of U q <> me.
+Proof.
+  intros Hin Hq. destruct (dirs_sound U true false me _ _ _ _ _ Hin Hq) as (H1 & H2 & H3 & H4 & _). auto.
+Qed.
